@@ -32,15 +32,27 @@ import (
 )
 
 // recorder wraps the entry executable and notes what the plugin chain returned.
+// In burst mode (concurrent deliveries) the outcome is keyed by the query's
+// own, unique question name as the entry executable receives it, never by
+// arrival order.
+type recEntry struct {
+	calls int
+	err   error
+	resp  *dns.Msg
+}
+
 type recorder struct {
 	inner sequence.Executable
 	mu    sync.Mutex
 	calls int
 	err   error
 	resp  *dns.Msg
+	burst bool
+	byKey map[string]*recEntry
 }
 
 func (r *recorder) Exec(ctx context.Context, qCtx *query_context.Context) error {
+	key := qCtx.QQuestion().Name
 	err := r.inner.Exec(ctx, qCtx)
 	var snap *dns.Msg
 	if m := qCtx.R(); m != nil {
@@ -50,6 +62,14 @@ func (r *recorder) Exec(ctx context.Context, qCtx *query_context.Context) error 
 	r.calls++
 	r.err = err
 	r.resp = snap
+	if r.burst {
+		e := r.byKey[key]
+		if e == nil {
+			e = &recEntry{err: err, resp: snap}
+			r.byKey[key] = e
+		}
+		e.calls++
+	}
 	r.mu.Unlock()
 	return err
 }
@@ -58,6 +78,22 @@ func (r *recorder) reset() {
 	r.mu.Lock()
 	r.calls, r.err, r.resp = 0, nil, nil
 	r.mu.Unlock()
+}
+
+func (r *recorder) setBurst(on bool) {
+	r.mu.Lock()
+	r.burst = on
+	r.byKey = map[string]*recEntry{}
+	r.mu.Unlock()
+}
+
+func (r *recorder) byName(key string) recEntry {
+	r.mu.Lock()
+	defer r.mu.Unlock()
+	if e := r.byKey[key]; e != nil {
+		return *e
+	}
+	return recEntry{}
 }
 
 func (r *recorder) get() (int, error, *dns.Msg) {
@@ -70,24 +106,66 @@ func (r *recorder) get() (int, error, *dns.Msg) {
 type handled struct {
 	nilPayload bool
 	n          int
+	calls      int
 }
 
 type hwrap struct {
 	h  server.Handler
 	ch chan handled
+
+	mu    sync.Mutex
+	burst bool
+	byKey map[string]*handled // burst mode: per question name
+	total int
 }
 
 func (w *hwrap) Handle(ctx context.Context, q *dns.Msg, meta server.QueryMeta, pack func(m *dns.Msg) (*[]byte, error)) *[]byte {
+	key := ""
+	if len(q.Question) > 0 {
+		key = q.Question[0].Name
+	}
 	p := w.h.Handle(ctx, q, meta, pack)
 	ev := handled{nilPayload: p == nil}
 	if p != nil {
 		ev.n = len(*p)
 	}
-	select {
-	case w.ch <- ev:
-	default:
+	w.mu.Lock()
+	burst := w.burst
+	if burst {
+		w.total++
+		e := w.byKey[key]
+		if e == nil {
+			c := ev
+			e = &c
+			w.byKey[key] = e
+		}
+		e.calls++
+	}
+	w.mu.Unlock()
+	if !burst {
+		select {
+		case w.ch <- ev:
+		default:
+		}
 	}
 	return p
+}
+
+func (w *hwrap) setBurst(on bool) {
+	w.mu.Lock()
+	w.burst = on
+	w.byKey = map[string]*handled{}
+	w.total = 0
+	w.mu.Unlock()
+}
+
+func (w *hwrap) byName(key string) handled {
+	w.mu.Lock()
+	defer w.mu.Unlock()
+	if e := w.byKey[key]; e != nil {
+		return *e
+	}
+	return handled{}
 }
 
 func (w *hwrap) drain() {
@@ -350,7 +428,7 @@ func (s *sockets) Close() {
 	}
 }
 
-const deliverWait = 3 * time.Second      // loopback delivery of bytes the handler is known to have returned
+const deliverWait = 10 * time.Second     // loopback delivery of bytes the handler is known to have returned
 const closeWatchdog = 20 * time.Second   // shutting a composition down
 const settleNone = 25 * time.Millisecond // "no reply" window after the handler is known to have returned nothing
 const settleMore = 2 * time.Millisecond  // "none other" window after the reply
